@@ -433,8 +433,9 @@ func clientSide(s ws.State) bool { return s&ws.StateClientSide != 0 }
 //@   ensures  [len] len(result) == n && fresh(result)
 //@   assigns nothing
 
+// A buffer handed back to the pool may be overwritten by its next user at any time.
 //@ func pbytes.Put
-//@   assigns nothing
+//@   assigns bytes(p)
 
 // ufSendRsv: the RSV bits a send extension leaves in a header (extensions are assumed to be
 // functions of the header they are given; see the SendExtension contract).
@@ -1028,3 +1029,18 @@ func iteReader(c bool, a, b io.Reader) io.Reader {
 //@   call ws.Dialer.Dial havoc
 //@   requires [d] d != nil
 //@   ensures [t] true
+
+// ReadMessage's collector of intermediate control frames (C04, C17): every collected message owns
+// a fresh copy of its payload.
+//@ func ioutil.ReadAll
+//@   requires [stream] streamOK(r)
+//@   ensures [fresh] result1 == nil ==> fresh(result0) || len(result0) == 0
+//@   ensures [data]  result1 == nil ==> len(result0) == inEnd(r)-old(inPos(r)) && forall(0, len(result0), func(k int) bool { return result0[k] == inByte(r, old(inPos(r))+k) })
+//@   assigns stream(r)
+
+//@ func ReadMessage$1
+//@   props C04 C17
+//@   requires [src] src != nil && streamOK(src) && 0 <= hdr.Length && hdr.Length <= 125
+//@   ensures [data]  result == nil ==> len(m[len(m)-1].Payload) == inEnd(src)-old(inPos(src)) && forall(0, len(m[len(m)-1].Payload), func(k int) bool { return m[len(m)-1].Payload[k] == inByte(src, old(inPos(src))+k) })
+//@   ensures [add]   result == nil ==> len(m) == old(len(m))+1 && m[len(m)-1].OpCode == hdr.OpCode && (fresh(m[len(m)-1].Payload) || len(m[len(m)-1].Payload) == 0)
+//@   ensures [keep]  result != nil ==> len(m) == old(len(m))
